@@ -41,6 +41,8 @@ pub fn is_valid_input_value(
     value: &ConstValue,
     path_node: QueryPathNode,
 ) -> Option<String> {
+    #[cfg(async_graphql_verif)]
+    crate::__verif::bump(crate::__verif::VALUE_CHECKS);
     match registry::MetaTypeName::create(type_name) {
         registry::MetaTypeName::NonNull(type_name) => match value {
             ConstValue::Null => Some(valid_error(
